@@ -281,6 +281,13 @@ func (ns *netState) claimScript() {
 			do(ns.owner, 1) // inner claim succeeds, the transaction reverts
 		case !latest && !locked && stage == 4:
 			do(ns.owner, 0) // the real claim
+			if ns.claimPlan[k] == 5 {
+				// ... and the same claim once more right behind it (same sender, next nonce): both land in one
+				// block, the second must see the record as gone although the deletion is only pending in the batch
+				if _, err := x.claim(from, ns.owner, rec.Miner[:], to, rec.Byte, rec.Epoch, 0); err == nil {
+					x.m.AddExtra("claims_repeated_right_behind_the_real_claim", 1)
+				}
+			}
 		}
 	}
 	// once: a claim for a record that was claimed long ago is covered by stage 5 (record absent)
